@@ -21,7 +21,9 @@ ASSUMPTIONS = [
     "manual_acks is read as suppressing the automatic PUBACK / PUBREC; the PUBCOMP answering a known PUBREL is always automatic (the API has no manual PubComp: Request::PubComp is unimplemented!())",
     "Publish content is (qos, pkid, topic, payload); dup/retain are never touched by state.rs and are fixed to false by the driver",
     "dev profile (overflow checks on); last_incoming/last_outgoing Instants and log lines are not modelled",
-    "the event-loop half (select guard, pending replay, readb batches) is proved about Client/Loop.v, a pure model written after eventloop.rs; it is tied to the code by reading only unless the loop driver is listed in coverage",
+    "the event-loop half (select guard, pending replay, readb batches) is proved about Client/Loop.v, a pure model written after eventloop.rs; it is tied to the real v4 EventLoop by the end-to-end loop driver "
+    "(coverage.loop_*): deterministic histories only (cut where tokio's select! would choose at random); the v5 event loop (same code shape, same two fix: commits) is not driven end to end",
+    "tokio (timers, select! fairness), the keep-alive arm, pending_throttle and network timeouts are outside the loop model; keep-alive is set to 3600 s in the loop driver so it never fires",
 ]
 
 ANS = re.compile(r"^(OK|ERR) (\[.*?\]|\S+) EV\[(.*?)\] INFL (\d+) COLL (\d)$")
@@ -590,7 +592,7 @@ def random_history(rng, ver, style, mx, nops):
 def gen_histories(ctx, ver):
     """yields (group, history) — group names the generator (for the histograms)."""
     th = ctx.thorough()
-    depths = ((1, 7 if th else 6), (2, 6 if th else 5), (3, 6 if th else 4)) if ver == "4" else ((1, 6 if th else 5), (2, 6 if th else 4), (3, 5 if th else 4))
+    depths = ((1, 7 if th else 6), (2, 6 if th else 5), (3, 5 if th else 4)) if ver == "4" else ((1, 6 if th else 5), (2, 5 if th else 4), (3, 5 if th else 4))
     for mx, L in depths:
         for h in exhaustive_histories(ver, mx, L):
             yield "exh-max%d-len%d" % (mx, L), h
@@ -604,6 +606,295 @@ def gen_histories(ctx, ver):
         mx = [1, 2, 3, 4, 5, 10, 100, 65535][rng.below(8)] if k % 3 else [1, 2, 3][rng.below(3)]
         yield "rand-" + style, random_history(rng, ver, style, mx, 30 + rng.below(170 if mx < 65535 else 40))
 
+
+
+# ----------------------------------------------------------------------------- the event loop, end to end
+
+LOOP_WIRE = re.compile(r"^(EVENT|ERROR|IDLE)(?: (\S+))? WIRE\[(.*)\]$")
+
+
+class LoopMon:
+    """Monitor of one loop history, fed (op line, implementation answer): the real EventLoop over
+    the in-memory transport.  Session-level view: every QoS>0 publish the broker has seen is
+    U(nacknowledged) / R(eleased, PUBCOMP outstanding) / A(cknowledged); `cur` are the ids active on
+    the current connection.  An acknowledgement written by the broker (NET) takes effect when the
+    client's read batch that contains it runs: the POLL answering with the Incoming notification
+    of the oldest unread broker packet, or with an error (a batch is at most 9 packets; an
+    Unsolicited error stops it at the offending packet)."""
+
+    def __init__(self, mx):
+        self.max = mx
+        self.viol = []
+        self.sent = []                 # tags of accepted user publishes with qos > 0, in order
+        self.sent_gen = {}             # tag -> number of failures before it was issued
+        self.gen = 0
+        self.excuse_point = 0          # publishes sent before the last reconnect WITHOUT session may be dropped
+        self.st = {}                   # tag -> ["U"|"R"|"A"|"X", id]
+        self.cur = {}                  # id -> tag: active on this connection
+        self.resumed = False
+        self.netq = []                 # broker packets written on this connection, not yet read: (kind, id)
+        self.nontrivial = set()
+
+    def v(self, prop, text):
+        self.viol.append((prop, text))
+
+    def owed(self):
+        """what earlier connections left unacknowledged and this one has not retransmitted yet"""
+        return [(tg, x[0], x[1]) for tg, x in self.st.items() if x[0] in "UR" and self.cur.get(x[1]) != tg]
+
+    def apply(self, kind, i):
+        """one broker packet processed by the client; False = the client must have refused it"""
+        tg = self.cur.get(i)
+        x = self.st.get(tg)
+        if kind == "PUBACK":
+            if x is None or x[0] != "U":
+                return False
+            x[0] = "A"; del self.cur[i]
+        elif kind == "PUBREC":
+            if x is None or x[0] != "U":
+                return False
+            x[0] = "R"
+        elif kind == "PUBCOMP":
+            if x is None or x[0] != "R":
+                return False
+            x[0] = "A"; del self.cur[i]
+        return True
+
+    def run_batch(self, stop_on_refusal):
+        batch, self.netq = self.netq[:9], self.netq[9:]
+        for (kind, i) in batch:
+            if not self.apply(kind, i) and stop_on_refusal:
+                self.netq = []
+                return
+
+    def feed(self, line, ans):
+        t = line.split()
+        if t[0] == "SEND":
+            if t[1] == "PUB" and t[2] != "0" and ans == "OK":
+                self.sent.append(t[5]); self.sent_gen[t[5]] = self.gen
+            return
+        if t[0] == "NET":
+            for part in line[3:].split(";"):
+                f = part.split()
+                if f:
+                    self.netq.append((f[0], int(f[1]) if len(f) > 1 else 0))
+            return
+        if t[0] == "FINISH":
+            held = ans[6:-1].split() if ans.startswith("HELD [") else []
+            held_tags = {h.split(":")[4] for h in held if h.startswith("PUB:")}
+            held_rel = {int(h.split(":")[1]) for h in held if h.startswith("PUBREL:")}
+            for k, tag in enumerate(self.sent):
+                x = self.st.get(tag)
+                if k < self.excuse_point or tag in held_tags or (x and (x[0] == "A" or (x[0] == "R" and x[1] in held_rel))):
+                    continue
+                self.v("C02", "publish with payload %s was accepted, never finally acknowledged, and is not held for retransmission at the end (held: %s)" % (tag, held))
+            return
+        if t[0] != "POLL":
+            return
+        m = LOOP_WIRE.match(ans)
+        if not m:
+            if ans not in ("AMBIG", "NOCONN", "DISABLED"):
+                self.v("C10", "unparsable loop answer %r" % ans)
+            return
+        kind, arg, wire = m.group(1), m.group(2), m.group(3).split()
+        if kind == "ERROR":
+            if self.netq:
+                self.run_batch(stop_on_refusal=True)
+            self.netq = []
+            self.gen += 1
+            self.nontrivial.add("failure-with-unacked" if self.cur else "failure")
+            return
+        if kind == "EVENT" and arg.startswith("I(CONNACK:"):
+            self.cur, self.netq = {}, []
+            if arg[10] == "1":
+                self.resumed = True
+                if self.owed():
+                    self.nontrivial.add("resume-with-unacked")
+            else:
+                self.excuse_point, self.resumed = len(self.sent), False
+                for x in self.st.values():
+                    if x[0] in "UR":
+                        x[0] = "X"
+                self.nontrivial.add("no-session")
+        elif kind == "EVENT" and arg.startswith("I(") and self.netq:
+            f = arg[2:-1].split(":")
+            if (f[0], int(f[1]) if len(f) > 1 and f[1].isdigit() else 0) == self.netq[0]:
+                self.run_batch(stop_on_refusal=False)      # this poll ran the read batch
+        if kind == "EVENT" and arg.startswith("O(AWAITACK:"):
+            self.nontrivial.add("loop-collision")
+        for w in wire:
+            f = w.split(":")
+            if f[0] == "PUB" and f[1] != "0":
+                i, tag = int(f[2]), f[4]
+                if not 1 <= i <= self.max:
+                    self.v("C07", "publish %s on the wire with id outside 1..%d" % (w, self.max))
+                if i in self.cur:
+                    self.v("C07", "%s written while id %d is still unacknowledged on this connection (by payload %s)" % (w, i, self.cur[i]))
+                x = self.st.get(tag)
+                clash = [(tg, y[0]) for tg, y in self.st.items() if tg != tag and y[0] in "UR" and y[1] == i]
+                if clash:
+                    self.v("C07", "%s written while id %d still belongs to the unacknowledged %s of payload %s" % (
+                        w, i, "release" if clash[0][1] == "R" else "publish", clash[0][0]))
+                if x is not None and x[0] in "UR":
+                    if x[1] != i:
+                        self.v("C11", "%s retransmitted with id %d, originally %d" % (w, i, x[1]))
+                else:
+                    ow = self.owed()
+                    if self.resumed and ow and self.sent_gen.get(tag, -1) == self.gen:
+                        self.v("C11", "publish %s, issued by the user after the failure, sent on the resumed session before the retransmission of %s" % (w, ow))
+                    self.st[tag] = ["U", i]
+                self.cur[i] = tag
+                if len(self.cur) > self.max:
+                    self.v("C07", "%d unacknowledged on the wire > limit %d" % (len(self.cur), self.max))
+            elif f[0] == "PUBREL":
+                i = int(f[1])
+                for tg, x in self.st.items():
+                    if x[0] == "R" and x[1] == i:
+                        self.cur[i] = tg
+
+
+def gen_loop_history(rng, model, mx):
+    """model-guided: the extracted loop model answers each op, the broker script (which acks to
+    send) is chosen from what the model says is on the wire; returns (ops, model_answers)"""
+    ops, answers = [], []
+
+    def do(op):
+        model.stdin.write(op + "\n"); model.stdin.flush()
+        a = model.stdout.readline().rstrip("\n")
+        ops.append(op); answers.append(a)
+        return a
+
+    do("LNEW %d 0" % mx)
+    do("ACCEPT 1"); do("POLL")
+    unacked, rel, tag = {}, [], 0       # broker view of this connection
+
+    def note(a):
+        m = LOOP_WIRE.match(a)
+        if not m:
+            return a
+        for w in m.group(3).split():
+            f = w.split(":")
+            if f[0] == "PUB" and f[1] != "0":
+                unacked[int(f[2])] = f[1]
+            elif f[0] == "PUBREL":
+                unacked.pop(int(f[1]), None)
+                if int(f[1]) not in rel:
+                    rel.append(int(f[1]))
+        return m.group(1)
+
+    def drain():
+        for _ in range(60):
+            a = do("POLL")
+            if note(a) in ("IDLE", "AMBIG", "NOCONN", "DISABLED", "ERROR"):
+                return a
+        return "IDLE"
+
+    steps = 6 + rng.below(14)
+    for _ in range(steps):
+        r = rng.below(100)
+        if r < 45:
+            for _ in range(1 + rng.below(3)):
+                tag += 1
+                kind = rng.below(10)
+                if kind == 0:
+                    do("SEND SUB")
+                elif kind == 1:
+                    do("SEND PUB 0 0 %d %d" % (tag % 50, tag))
+                else:
+                    do("SEND PUB %d 0 %d %d" % (2 if rng.chance(1, 3) else 1, tag % 50, tag))
+            a = drain()
+        elif r < 80 and (unacked or rel):
+            pk = []
+            ids = list(unacked)
+            if rng.chance(1, 2):
+                ids = ids[::-1]
+            for i in ids[:1 + rng.below(3)]:
+                if unacked[i] == "1":
+                    pk.append("PUBACK %d" % i); unacked.pop(i)
+                else:
+                    pk.append("PUBREC %d" % i)
+            for i in rel[:rng.below(3)]:
+                pk.append("PUBCOMP %d" % i); rel.remove(i)
+            if rng.chance(1, 10):
+                pk.append("PUBACK %d" % (1 + rng.below(mx)))     # maybe unsolicited
+            if not pk:
+                continue
+            do("NET " + " ; ".join(pk))
+            if rng.chance(1, 6):
+                do("DROP")
+            a = drain()
+        elif r < 95:
+            do("DROP")
+            a = drain()
+        else:
+            a = drain()
+        if a.startswith(("AMBIG", "DISABLED")):
+            break
+        if a.startswith("ERROR") or a.startswith("NOCONN"):
+            unacked.clear(); del rel[:]
+            do("ACCEPT %d" % (0 if rng.chance(1, 6) else 1))
+            a = do("POLL"); note(a)
+            if rng.chance(1, 5):      # second failure before pending is drained
+                do("POLL")
+                do("DROP"); a = drain()
+                if a.startswith("ERROR"):
+                    unacked.clear(); del rel[:]
+                    do("ACCEPT 1"); note(do("POLL"))
+            drain()
+    do("FINISH")
+    return ops, answers
+
+
+def loop_run(ctx, mexe):
+    """end-to-end: real EventLoop (harness bin clientloop) vs Client/Loop.v, plus loop monitors"""
+    import subprocess
+    res = {"histories": 0, "ops": 0, "div": [], "viol": {p: [] for p in PROPS}, "nontrivial": {}, "built": False,
+           "truncated": 0, "samples": []}
+    lexe, out = lib.cargo_driver("clientloop")
+    if os.environ.get("VERIF_CLIENTLOOP_IMPL"):
+        lexe = os.environ["VERIF_CLIENTLOOP_IMPL"]
+    if not lexe:
+        res["build_error"] = out[-2000:]
+        return res
+    res["built"] = True
+    rng = lib.Rng(ctx.seed * 7 + 5)
+    n = 4000 if ctx.thorough() else 400
+    model = subprocess.Popen([mexe, "loop"], stdin=subprocess.PIPE, stdout=subprocess.PIPE, text=True, bufsize=1)
+    hs = []
+    for k in range(n):
+        mx = [1, 1, 2, 2, 3, 5][rng.below(6)]
+        ops, mans = gen_loop_history(rng, model, mx)
+        # never compare past a point where the real select! may legitimately choose differently
+        cut = next((i for i, a in enumerate(mans) if a in ("AMBIG", "NOCONN", "DISABLED", "PANIC")), None)
+        if cut is not None:
+            ops, mans = ops[:cut], mans[:cut]
+            res["truncated"] += 1
+        hs.append((mx, ops, mans))
+    model.stdin.close(); model.wait()
+    text = "\n".join("\n".join(ops) for (_, ops, _) in hs) + "\n"
+    rc, impl, err = lib.run_on_text(lexe, text)
+    total = sum(len(ops) for (_, ops, _) in hs)
+    if rc != 0 or len(impl) != total:
+        res["driver_failure"] = "clientloop exit %d, %d/%d lines\n%s" % (rc, len(impl), total, err[-1000:])
+        return res
+    pos = 0
+    for (mx, ops, mans) in hs:
+        a = impl[pos:pos + len(ops)]; pos += len(ops)
+        res["histories"] += 1; res["ops"] += len(ops)
+        if a != mans and len(res["div"]) < 5:
+            k = next(i for i in range(len(ops)) if a[i] != mans[i])
+            res["div"].append({"history": ops[:k + 1], "impl": a[k], "model": mans[k]})
+        mon = LoopMon(mx)
+        for o, x in zip(ops, a):
+            mon.feed(o, x)
+        for tg in mon.nontrivial:
+            res["nontrivial"][tg] = res["nontrivial"].get(tg, 0) + 1
+        for (p, txt) in mon.viol:
+            if len(res["viol"][p]) < 200:
+                res["viol"][p].append({"history": ops, "text": txt})
+        if len(res["samples"]) < 2 and len(ops) > 25:
+            res["samples"].append({"ops": ops[:40], "impl_answers": a[:40]})
+    return res
 
 # ----------------------------------------------------------------------------- running
 
@@ -622,6 +913,10 @@ def setup():
         return False
     mexe, iexe, out = drivers()
     if not mexe or not iexe:
+        print(out[-3000:])
+        return False
+    lexe, out = lib.cargo_driver("clientloop")
+    if not lexe:
         print(out[-3000:])
         return False
     return True
@@ -804,6 +1099,7 @@ def full_run(ctx, mexe, iexe):
         flush()
     for p in PROPS:
         res["distinct_nontrivial"][p] = len(seen_nt[p])
+    res["loop"] = loop_run(ctx, mexe)
     res["wall_generated_run_s"] = round(time.time() - t0, 1)
     return res
 
@@ -858,7 +1154,7 @@ def run(ctx):
                        "{publish QoS1, publish QoS2, subscribe, PUBACK/PUBREC/PUBCOMP k for every k<=max, PUBACK max+1, CLEAN} (prefix-closed, so all shorter ones are covered); "
                        "every incoming packet type x id in {0,1,max,max+1,65535} x manual_acks after 0-2 publishes; random long runs (in-order broker, reordering broker, "
                        "duplicating/unsolicited acks, ids above max, clean+replay) with max in {1,2,3,4,5,10,100,65535}. Each history runs on rumqttc::MqttState and on the extracted Coq model; "
-                       "monitors read the implementation's answers only. " % ("7/6/6" if th else "6/5/4")) + RULES[prop] + "; distinct histories counted by hash."
+                       "monitors read the implementation's answers only. " % ("7/6/5 (v4), 6/5/5 (v5)" if th else "6/5/4 (v4), 5/4/4 (v5)")) + RULES[prop] + "; distinct histories counted by hash."
     ctx.cov["evaluations"] = r["evaluations"]
     ctx.cov["ops"] = r["ops"]
     ctx.cov["traces_validated_against_impl"] = r["evaluations"] if not r["driver_failure"] else 0
@@ -871,7 +1167,17 @@ def run(ctx):
     ctx.cov["samples"] = r["samples"]
     ctx.cov["shared_run_from_cache"] = r.get("from_cache", False)
     ctx.cov["shared_run_wall_s"] = r.get("wall_generated_run_s")
-    ctx.cov["loop_driver"] = False
+    lp = r.get("loop", {})
+    ctx.cov["loop_driver"] = bool(lp.get("built"))
+    ctx.cov["loop_histories_end_to_end"] = lp.get("histories", 0)
+    ctx.cov["loop_ops"] = lp.get("ops", 0)
+    ctx.cov["loop_trigger_histogram"] = lp.get("nontrivial", {})
+    ctx.cov["loop_histories_cut_at_select_ambiguity"] = lp.get("truncated", 0)
+    ctx.cov["loop_samples"] = lp.get("samples", [])[:1]
+    ctx.cov["loop_rule"] = ("end to end: the real rumqttc::EventLoop (v4) over the in-memory transport hook under paused tokio time with a scripted broker "
+                            "(harness bin clientloop) against Client/Loop.v (ocaml driver, loop mode): model-guided random histories (user sends, polls, broker acks in and out of order, "
+                            "unsolicited acks, drops incl. inside a read batch, reconnects with/without session, second failure before pending is drained), max_inflight in {1,2,3,5}; "
+                            "a history is cut where both the network and the request arm of select! are ready (tokio picks at random)")
     if r["driver_failure"]:
         ctx.violation("driver-failed", r["driver_failure"], False, "a driver did not answer every op")
         return
@@ -912,6 +1218,26 @@ def run(ctx):
         content += "\n".join(small) + "\n"
         ctx.violation("input", content, True, txt)
         reported = True
+    # ---- the event loop, end to end
+    if lp and not reported:
+        if not lp.get("built") or lp.get("driver_failure"):
+            ctx.violation("tie-broken-loop", "the loop driver (harness bin clientloop) does not build / run against /repo:\n%s" % (
+                lp.get("build_error") or lp.get("driver_failure")), False, "loop driver failed; correspondence EventLoop(impl)=Client.Loop not checked")
+            reported = True
+        else:
+            lv = sorted(lp["viol"].get(prop, []), key=lambda v: len(v["history"]))
+            if lv:
+                v = lv[0]
+                content = "# %s replay (event loop, end to end): one op per line; run: ./check %s --replay <this file>\n# %s\n" % (prop, prop, v["text"])
+                content += "\n".join(v["history"]) + "\n"
+                ctx.violation("input-loop", content, True, v["text"])
+                reported = True
+            elif lp["div"]:
+                d = lp["div"][0]
+                content = "# %s: correspondence EventLoop (implementation) = Client.Loop (Coq model) broken; no loop monitor failed.\n# last op: impl %r, model %r\n" % (prop, d["impl"], d["model"])
+                content += "\n".join(d["history"]) + "\n"
+                ctx.violation("correspondence-loop", content, False, "event loop and Client/Loop.v differ (%d diverging histories); monitors green" % len(lp["div"]))
+                reported = True
     # ---- C: model vs implementation
     if r["div"] and not reported:
         d = r["div"][0]
@@ -931,6 +1257,27 @@ def run(ctx):
 def replay(ctx, path):
     mexe, iexe, out = drivers()
     lines = [l.strip() for l in open(path).read().splitlines() if l.strip() and not l.startswith("#")]
+    if lines and lines[0].startswith("LNEW"):
+        lexe, _ = lib.cargo_driver("clientloop")
+        if os.environ.get("VERIF_CLIENTLOOP_IMPL"):
+            lexe = os.environ["VERIF_CLIENTLOOP_IMPL"]
+        txt = "\n".join(lines) + "\n"
+        _, impl, _ = lib.run_on_text(lexe, txt)
+        _, model, _ = lib.run_on_text(mexe, txt, args=["loop"])
+        mon = LoopMon(int(lines[0].split()[1]))
+        rc = 0
+        for l, a, m in zip(lines, impl, model):
+            print("%-34s impl[%s]  model[%s]%s" % (l, a, m, "" if a == m else "   <-- DIFFERS"))
+            mon.feed(l, a)
+            if a != m:
+                rc = 1
+        for (p, t) in mon.viol:
+            print("monitor %s: %s" % (p, t))
+            if p == ctx.prop:
+                rc = 1
+        if rc:
+            print("VIOLATION property=%s replay=%s" % (ctx.prop, path))
+        return rc
     if not lines or not lines[0].startswith("NEW"):
         print("replay file holds no op history (it names a broken proof / correspondence):")
         print(open(path).read())
